@@ -2,6 +2,7 @@
 # tools/soak.sh "<seeds>" [props...] : run the quick tier of every check with several seeds on the unchanged tree
 # (false-alarm soak; meant for `vp run`). Prints one line per run; non-zero exits and VIOLATION lines are kept in soak/.
 seeds=${1:-"2 3 4"}; shift
+[ -n "$VP_RUN_REPO" ] && export VERIF_REPO=$VP_RUN_REPO
 props=${@:-C01 C02 C03 C04 C05 C06 C07 C08 C09 C10 C11 C12 C13 C14 C15 C16 C17 C18 C19 C20}
 [ -x build/extract/driver ] || ./setup.sh > /dev/null 2>&1
 mkdir -p soak
